@@ -92,12 +92,26 @@ class C14Oracle(Oracle):
                     self.must_refuse = "%d of %d named elements are not in %s" % (len(foreign), len(items), BULK[base])
             except Exception:
                 pass
+        if base == "wire.connect_pin" and len(ev[1]) >= 2:
+            # a pin that already sits on a wire - however the caller names it (the stored pin, or an equal handle built
+            # from instance and inner pin) - cannot be connected again
+            try:
+                s_ = core.sdn()
+                pin = engine_a.ops.resolve(w, ev[1][1])
+                stored = pin
+                if isinstance(pin, s_.OuterPin) and pin.instance is not None and pin.inner_pin is not None:
+                    stored = pin.instance.pins.get(pin.inner_pin, pin)
+                if getattr(stored, "wire", None) is not None:
+                    self.must_refuse = "the pin is already connected"
+            except Exception:
+                pass
         return snapshot(w)
 
     def step(self, w, ev, outcome, token):
         if outcome[0] != "raised":
             if getattr(self, "must_refuse", None):
-                return [("bulk-call-naming-a-stranger-accepted:" + ".".join(ev[0].split(".")[:2]), "%s accepted although %s" % (ev[0], self.must_refuse))]
+                what = "bulk-call-naming-a-stranger-accepted" if ev[0].split(".")[1] != "connect_pin" else "connect-of-a-connected-pin-accepted"
+                return [("%s:%s" % (what, ".".join(ev[0].split(".")[:2])), "%s accepted although %s" % (ev[0], self.must_refuse))]
             return []
         bad = []
         after = snapshot(w)
